@@ -255,6 +255,14 @@ class _TCPPooling:
         # way of indicating that a particular message was bad, it always shuts
         # down the complete connection
 
+        transport = message.remote._transport
+        if transport is None or transport.is_closing():
+            # Nothing written now would reach the peer, and no response can
+            # come back either
+            if message.code.is_request():
+                raise error.NetworkError("Connection is closed")
+            return
+
         if message.code.is_response():
             no_response = (message.opt.no_response or 0) & (
                 1 << message.code.class_ - 1
